@@ -143,3 +143,46 @@ def cas_atomic_rule(ctx, rule, label="cas"):
                       f"(first at line {getattr((unlocked or guards)[0], 'lineno', 0)}): two threads can both see WAITING and both set RUNNING - one queued trial "
                       f"is handed to two workers",
               how="every read of the stored trial's state and every publication (_set_trial) lies in the same `with self._lock` statement")
+
+
+
+MODELS = "optuna.storages._rdb.models"
+
+
+def cas_dialect_rule(ctx, rule, label="cas"):
+    """RDB backend: what makes read-state / test / write-state atomic must work on every SQL dialect the
+    storage accepts. Today it is `SELECT ... FOR UPDATE` (find_or_raise_by_id(for_update=True) ->
+    Query.with_for_update()). RDBStorage accepts sqlite URLs (it has `engine.name == "sqlite"` branches and
+    sqlite is the documented default for file storage), and SQLAlchemy's SQLite dialect drops FOR UPDATE -
+    stated in the repository itself next to the call. So either no accepted dialect ignores the row lock,
+    or the UPDATE statement itself carries the expected state (UPDATE .. WHERE state = <read state>, row
+    count tested)."""
+    p = ctx.program
+    cls = p.cls(RDB)
+    f = cls.methods.get("set_trial_state_values")
+    ctx.require(f is not None, f"{rule}: RDBStorage.set_trial_state_values vanished")
+    # 1. the row is read with for_update=True (R03.4 checks the session discipline)
+    reads = [c for c in own_nodes(f.node) if isinstance(c, ast.Call) and isinstance(c.func, ast.Attribute) and c.func.attr == "find_or_raise_by_id"]
+    locked = [c for c in reads if any(k.arg == "for_update" and isinstance(k.value, ast.Constant) and k.value.value is True for k in c.keywords)]
+    ctx.check(bool(locked), rule, f.short, f"{label}:row-read-for-update",
+              message="RDBStorage.set_trial_state_values reads the trial row without for_update=True: on PostgreSQL/MySQL two workers can both read WAITING and both write RUNNING",
+              how="find_or_raise_by_id(..., for_update=True)")
+    # 2. does the storage accept a dialect for which the row lock is a no-op?
+    sqlite_supported = any(isinstance(x, ast.Compare) and "engine.name" in norm(x.left) and any(isinstance(c, ast.Constant) and c.value == "sqlite" for c in x.comparators)
+                           for m in cls.methods.values() for x in own_nodes(m.node))
+    mf = p.func(MODELS + ".TrialModel.find_or_raise_by_id")
+    uses_for_update = any(isinstance(c, ast.Call) and isinstance(c.func, ast.Attribute) and c.func.attr == "with_for_update" for c in own_nodes(mf.node))
+    ctx.require(uses_for_update or not locked, f"{rule}: TrialModel.find_or_raise_by_id no longer applies with_for_update(): row-lock mechanism changed, re-confirm by hand")
+    # 3. statement-level guard: a Query.update()/update().where() whose filter mentions the state column and whose row count is used
+    stmt_guard = False
+    for c in own_nodes(f.node):
+        if isinstance(c, ast.Call) and isinstance(c.func, ast.Attribute) and c.func.attr in ("update", "where", "filter", "filter_by"):
+            chain = norm(c)
+            if ".update(" in chain and ("state ==" in chain or "state=" in chain) and ("filter" in chain or "where" in chain):
+                stmt_guard = True
+    ok = (not sqlite_supported) or stmt_guard
+    ctx.check(ok, rule, f.short, f"{label}:enforced-on-every-dialect",
+              message="RDBStorage.set_trial_state_values relies on SELECT ... FOR UPDATE to make `read state, test, write state` atomic, but the storage accepts sqlite URLs and "
+                      "SQLite ignores FOR UPDATE (said so next to with_for_update() in _rdb/models.py and in the FAQ); the UPDATE the ORM emits is `WHERE trial_id = ?` only. "
+                      "Two workers on one SQLite file can both read WAITING (or RUNNING) and both get True",
+              how="no accepted dialect ignores the row lock, or the UPDATE carries `AND state = <state read>` with its row count tested")
